@@ -72,7 +72,8 @@ def gen_cases(rng, count):
         P = rng.choice([Fraction(1), Fraction(1, 4), Fraction(1, 2)])
         n = min(h, 12) + rng.randint(2, 12)
         vs = F.variables(f) or ["x"]
-        out.append({"f": f, "P": P, "n": n, "h": h, "data": {v: gen_values(rng, n) for v in vs}, "vars": vs})
+        useed = rng.randint(0, 10 ** 6) if rng.random() < 0.25 and any(x[0] in ("tb1", "tb2") for x in F.subformulas(f)) else None
+        out.append({"f": f, "P": P, "n": n, "h": h, "data": {v: gen_values(rng, n) for v in vs}, "vars": vs, "units_seed": useed})
     for c, o in zip(out, common.driver_run([disc.proto_case("rhot", c["f"], c["data"], c["n"]) for c in out])):
         c["m_rho"] = disc.parse_model(o)
     return out
@@ -88,6 +89,12 @@ def bound_txt(P):
 def check_case(ctx, c):
     f, P, n, data, vs = c["f"], c["P"], c["n"], c["data"], c["vars"]
     text = "out = " + F.to_text(f, bound=bound_txt(P))
+    if c.get("units_seed") is not None:
+        # the same durations with explicit units on either / both bounds (default unit s: the time stamps are seconds)
+        import random
+        from . import c08
+        text = c08.render(random.Random(c["units_seed"]), f, "s", int(P * 10 ** 9), [])
+        ctx.count("unit-spellings")
     sig = {v: [(P * k, data[v][k]) for k in range(n)] for v in vs}
     # dense offline
     _, dn = D.eval_offline(f, sig, text=text)
@@ -95,7 +102,7 @@ def check_case(ctx, c):
     per_ms = int(P * 1000)
     dsc = impl.eval_offline_discrete(text, vs, data, n, sampling=(per_ms, "ms", 0.1))
     h = c["h"] if "h" in c else int(common.driver_run(["past | " + F.to_proto(f)])[0][3:].split("|")[0])
-    rep = {"spec": text, "formula": F.to_proto(f), "P": str(P), "n": n, "data": data, "horizon": h, "impl_dense": dn, "impl_discrete": dsc}
+    rep = {"units_seed": c.get("units_seed"), "spec": text, "formula": F.to_proto(f), "P": str(P), "n": n, "data": data, "horizon": h, "impl_dense": dn, "impl_discrete": dsc}
     if dn[0] != "ok" or dsc[0] != "ok":
         return Violation("evaluation raised: dense %r, discrete %r: %s" % (dn[:2], dsc[:2], text), rep, stream="grid")
     dense_samples = D.samples_of(dn[1])
@@ -141,7 +148,7 @@ def explore(ctx, rng, count):
 def replay(ctx, obj):
     f = F.from_proto(obj["formula"])
     c = {"f": f, "P": Fraction(obj["P"]), "n": obj["n"], "data": {k: [float(x) for x in v] for k, v in obj["data"].items()},
-         "vars": F.variables(f) or ["x"]}
+         "vars": F.variables(f) or ["x"], "units_seed": obj.get("units_seed")}
     v = check_case(Ctx(ctx.id, ctx.tier, ctx.seed), c)
     return (v is None), (v.what if v else "dense and discrete interpretations agree on the replayed case")
 
